@@ -106,13 +106,14 @@ func init() {
 	})
 	// ------------------------------------------------------------------ C07
 	register("C07", func(r *Reporter) {
-		r.Cov["rule"] = "all program families (General, Shadow, RegDep, Tail, MemDep, MemWalk) plus the Err family (division/remainder by zero and undefined labels at depth 0..3) on all 33 configurations; verdict = the run exceeds its tick budget 8*309*(n+160+32p) (n = sequential instruction count), panics, blocks, or (Err) does not return an error value. Non-trivial = every case"
+		r.Cov["rule"] = "all program families (General, Shadow, RegDep, Tail, MemDep, MemWalk) plus the Err family (division/remainder by zero and undefined labels at depth 0..3) on all 33 configurations; plus the cache-controller rig schedules of C06 (pairs, triples, evictions, injected flushes) on MVP-7.0/7.1/8; verdict = the run exceeds its tick budget 8*309*(n+160+32p) (n = sequential instruction count), panics, blocks, or (Err) does not return an error value. Non-trivial = every case"
 		fams := []famRun{famRunOf("Err", sizeForTier()), famRunOf("Shadow", "small"), famRunOf("Tail", "small"), famRunOf("MemDep", "small"), famRunOf("RegDep", "small")}
 		gr := generalRuns()
 		fams = append(fams, gr[0], gr[len(gr)-1])
 		if tier == "thorough" {
 			fams = append(fams, famRunOf("MemWalk", "small"))
 		}
+		rigLiveness(r)
 		runFamily(r, "C07", fams, allCfgs, nil, func(c *ProgCase, o Obs) (bool, string) {
 			if c.Exp.Status == "err" {
 				if o.Res.Hang || o.Res.Blocked || o.Res.Panic != "" {
